@@ -8,7 +8,7 @@ use crate::{with_mt, Ctx};
 use serde_json::{json, Value};
 use swift_mt_message::{ParseError, SwiftParser};
 
-fn shapes(mt: &str) -> Vec<Msg> {
+fn shapes(mt: &str, cap: usize) -> (Vec<Msg>, usize) {
     let (msgs, _) = corpus(mt, 1, 3000);
     let ok: Vec<Msg> = msgs.into_iter().filter(|m| matches!(super::c03::eval(m), super::c03::Outcome::Ok)).collect();
     let mut v = vec![];
@@ -16,7 +16,12 @@ fn shapes(mt: &str) -> Vec<Msg> {
     if let Some(m) = ok.iter().filter(|m| m.base == "max").max_by_key(|m| m.occs.len()) { v.push(m.clone()); }
     if let Some(m) = ok.iter().find(|m| m.deviations == 1 && m.base == "min") { v.push(m.clone()); }
     if v.is_empty() { if let Some(m) = ok.first() { v.push(m.clone()); } }
-    v
+    // the first OFFDIAG shapes are used for the 30 x 30 pairs; all of them (every accepted trace within
+    // one deviation of the minimal and maximal base, up to `cap`) for the agreement of the entry points
+    let n_first = v.len();
+    let texts: std::collections::HashSet<String> = v.iter().map(|m| m.text_lf()).collect();
+    for m in ok.into_iter() { if v.len() >= cap { break; } if !texts.contains(&m.text_lf()) { v.push(m); } }
+    (v, n_first)
 }
 
 fn header_in(code: &str) -> String { format!("{{1:F01BANKBEBBAXXX0000000000}}{{2:I{code}BANKDEFFXXXXN}}") }
@@ -37,10 +42,12 @@ pub fn run(ctx: &Ctx) -> i32 {
     let mut col = Collector::new();
     let mut evals = 0u64; let mut buckets = std::collections::BTreeSet::new(); let mut samples = vec![];
     let mut order = 0u64;
-    let mut all_shapes: Vec<(String, Vec<Msg>)> = vec![];
-    for mt in MT_CODES { all_shapes.push((mt.to_string(), shapes(mt))); }
+    let mut all_shapes: Vec<(String, Vec<Msg>, usize)> = vec![];
+    let cap = if ctx.thorough { 4000 } else { 120 };
+    for mt in MT_CODES { let (v, n) = shapes(mt, cap); all_shapes.push((mt.to_string(), v, n)); }
+    ev.set("diagonal_shapes", json!(all_shapes.iter().map(|(_, v, _)| v.len()).sum::<usize>()));
     // ---------- 30 x 30 pairs
-    for (a, msgs) in &all_shapes {
+    for (a, msgs, n_first) in &all_shapes {
         for (si, m) in msgs.iter().enumerate() {
             let text = spec::envelope(a, &m.text_lf());
             // typed reference for the diagonal
@@ -52,6 +59,7 @@ pub fn run(ctx: &Ctx) -> i32 {
             }, else => None);
             let Some((tj, tmt, terrs)) = typed else { continue; };
             for r in MT_CODES {
+                if si >= *n_first && { let rr: &str = r; rr != a.as_str() } { continue; }
                 order += 1; evals += 1;
                 let res = with_mt!(r, R => { match guarded(|| SwiftParser::parse::<R>(&text)) { Ok(Ok(_)) => "ok".to_string(), Ok(Err(e)) => err_class(&e), Err(l) => format!("panic@{}", short_loc(&l)) } }, else => "?".into());
                 buckets.insert(format!("typed:{}", if a == r { "diag" } else { res.as_str() }));
@@ -104,13 +112,13 @@ pub fn run(ctx: &Ctx) -> i32 {
         }
     }
     // ---------- all codes 000-999 + non-numeric
-    let body103 = all_shapes.iter().find(|(a, _)| a == "103").map(|(_, m)| m[0].text_lf()).unwrap_or_default();
-    let body199 = all_shapes.iter().find(|(a, _)| a == "199").map(|(_, m)| m[0].text_lf()).unwrap_or_default();
+    let body103 = all_shapes.iter().find(|(a, _, _)| a == "103").map(|(_, m, _)| m[0].text_lf()).unwrap_or_default();
+    let body199 = all_shapes.iter().find(|(a, _, _)| a == "199").map(|(_, m, _)| m[0].text_lf()).unwrap_or_default();
     let mut codes: Vec<String> = (0..1000).map(|n| format!("{:03}", n)).collect();
     codes.extend(["ABC", "1A3", "10X"].iter().map(|s| s.to_string()));
     for code in &codes {
         let supported = MT_CODES.contains(&code.as_str());
-        let own = all_shapes.iter().find(|(a, _)| a == code).and_then(|(_, m)| m.first().map(|m| m.text_lf()));
+        let own = all_shapes.iter().find(|(a, _, _)| a == code).and_then(|(_, m, _)| m.first().map(|m| m.text_lf()));
         let mut bodies: Vec<(&str, String)> = vec![("103-body", body103.clone()), ("199-body", body199.clone())];
         if let Some(o) = own { bodies.push(("own-body", o)); }
         for (bname, body) in &bodies {
